@@ -1903,7 +1903,13 @@ def _batches(ctx, gen, size=2000, code_every=1):
             if ctx.violations:
                 return total
             if ctx.time_left() < 0:
-                raise InfraError("time budget exhausted inside an exhaustive scope")
+                # a slow or loaded machine: the scope is cut short and the evidence says so (the cases already
+                # evaluated stand; nothing is claimed about the rest), instead of ending the check with exit 2
+                cut = getattr(ctx, "_c12_cut_short", [])
+                cut.append({"after_cases": total})
+                ctx._c12_cut_short = cut
+                ctx.note("exhaustive_cut_short", cut)
+                return total
     evaluate(ctx, batch, code_every)
     return total + len(batch)
 
